@@ -282,11 +282,12 @@ Qed.
 
 (* ================================================================== the id-set phases *)
 
-Lemma seen_before_incl pl enum k : forall acc r, In r acc -> In r (seen_before pl enum k acc).
+Lemma seen_before_incl pl enum fixed k : forall acc r, In r acc -> In r (seen_before pl enum fixed k acc).
 Proof.
   induction pl as [|[j|j|j] pl IH]; intros acc r H; simpl; auto.
   - apply IH. apply in_or_app. now left.
   - destruct (Nat.eqb j k); auto.
+  - apply IH. apply in_or_app. now left.
 Qed.
 
 (* whatever the order (and multiplicity) in which the id-set phases ask — as long as they ask for
@@ -294,8 +295,8 @@ Qed.
    for any sequence of phases, any enumeration, any fixed sequences *)
 Lemma idset_irrelevant_of : forall pl enum fixed t1 t2 acc st,
   (forall r, In r acc -> has_item st r) ->
-  (forall k r, In r (nth k t1 []) -> In r (seen_before pl enum k acc)) ->
-  (forall k r, In r (nth k t2 []) -> In r (seen_before pl enum k acc)) ->
+  (forall k r, In r (nth k t1 []) -> In r (seen_before pl enum fixed k acc)) ->
+  (forall k r, In r (nth k t2 []) -> In r (seen_before pl enum fixed k acc)) ->
   fst (run st (registration_of pl enum fixed t1)) = fst (run st (registration_of pl enum fixed t2)).
 Proof.
   induction pl as [|ph pl IH]; intros enum fixed t1 t2 acc st HA H1 H2; [reflexivity|].
@@ -317,15 +318,16 @@ Proof.
       destruct (Nat.eqb j k); [now apply seen_before_incl|assumption].
     + intros k r Hr. specialize (H2 k r Hr). simpl in H2.
       destruct (Nat.eqb j k); [now apply seen_before_incl|assumption].
-  - apply (IH enum fixed t1 t2 acc).
-    + intros r Hr. apply has_item_mono. auto.
+  - set (S := nth j fixed []).
+    apply (IH enum fixed t1 t2 (acc ++ S)).
+    + intros r Hr. apply in_app_or in Hr as [Hr|Hr]; [apply has_item_mono; auto|now apply run_has].
     + intros k r Hr. exact (H1 k r Hr).
     + intros k r Hr. exact (H2 k r Hr).
 Qed.
 
-Lemma idsel_members pl enum sel t :
-  Forall2 (@Permutation req) t (idsel_of pl enum sel) ->
-  forall k r, In r (nth k t []) -> In r (seen_before pl enum k []).
+Lemma idsel_members pl enum fixed sel t :
+  Forall2 (@Permutation req) t (idsel_of pl enum fixed sel) ->
+  forall k r, In r (nth k t []) -> In r (seen_before pl enum fixed k []).
 Proof.
   intros HT k r Hr. apply (Permutation_in _ (nth_perm _ _ HT k)) in Hr.
   unfold idsel_of in Hr. rewrite nth_map_seq in Hr.
@@ -445,169 +447,23 @@ Proof.
   apply Hid. rewrite <- F2, Fi. now apply in_map.
 Qed.
 
-(* soundness of the boolean hypotheses *)
-Lemma consistentb_sound P : consistentb P = true -> consistentP (all_reqs P).
-Proof.
-  unfold consistentb. rewrite forallb_forall. intros H a b Ha Hb E.
-  specialize (H a Ha). rewrite forallb_forall in H. specialize (H b Hb).
-  apply Nat.eqb_eq in E. rewrite E in H. now apply req_eqb_eq.
-Qed.
-
 Lemma consistentP_incl rs rs' : consistentP rs -> incl rs' rs -> consistentP rs'.
 Proof. intros H I a b Ha Hb. apply H; now apply I. Qed.
 
 
-(* ------------------------------------------------------------------ one key of a whole run *)
 
-Definition filter_file (K : str * str) (f : pfile) : pfile :=
-  {| f_path := f_path f; f_segs := map (filter (has_key K)) (f_segs f) |}.
+(* ================================================================== the theorems about a whole run *)
 
-Lemma nth_map_filter {A} (p : A -> bool) (l : list (list A)) k :
-  nth k (map (filter p) l) [] = filter p (nth k l []).
-Proof. change (@nil A) with (filter p []) at 1. apply map_nth. Qed.
-
-Lemma seg_filter_file K k f : seg k (filter_file K f) = filter (has_key K) (seg k f).
-Proof. unfold seg, filter_file. simpl. apply nth_map_filter. Qed.
-
-Lemma filter_flat_map {A B} (p : B -> bool) (f : A -> list B) l :
-  filter p (flat_map f l) = flat_map (fun x => filter p (f x)) l.
-Proof. induction l as [|x l IH]; simpl; [reflexivity|]. now rewrite filter_app, IH. Qed.
-
-Lemma flat_seg_filter K k enum :
-  flat_map (seg k) (map (filter_file K) enum) = filter (has_key K) (flat_map (seg k) enum).
+(* set-ordered phases: whatever order they ask in *)
+Theorem idset_order_irrelevant : forall P pi sigma1 sigma2,
+  sigma_ok P pi sigma1 -> sigma_ok P pi sigma2 -> idents P pi sigma1 = idents P pi sigma2.
 Proof.
-  rewrite filter_flat_map. induction enum as [|f enum IH]; simpl; [reflexivity|].
-  now rewrite seg_filter_file, IH.
-Qed.
-
-Lemma registration_filter K pl enum fixed t :
-  filter (has_key K) (registration_of pl enum fixed t)
-  = registration_of pl (map (filter_file K) enum) (map (filter (has_key K)) fixed)
-                    (map (filter (has_key K)) t).
-Proof.
-  unfold registration_of. rewrite filter_flat_map. apply flat_map_ext. intros [k|k|k]; simpl.
-  - now rewrite flat_seg_filter.
-  - now rewrite nth_map_filter.
-  - now rewrite nth_map_filter.
-Qed.
-
-Lemma seen_before_filter K pl enum k : forall acc,
-  seen_before pl (map (filter_file K) enum) k (filter (has_key K) acc)
-  = filter (has_key K) (seen_before pl enum k acc).
-Proof.
-  induction pl as [|[j|j|j] pl IH]; intros acc; simpl; auto.
-  - rewrite flat_seg_filter, <- filter_app. apply IH.
-  - destruct (Nat.eqb j k); auto.
-Qed.
-
-Lemma key_equiv_members a b r : key_equiv a b -> In r a -> In r b.
-Proof.
-  intros H Hr. assert (X : In r (filter (has_key (name_key r)) a)).
-  { apply filter_In. split; [assumption|apply key_eqb_refl]. }
-  rewrite (H (name_key r)) in X. now apply filter_In in X as [X _].
-Qed.
-
-Lemma key_equiv_sym a b : key_equiv a b -> key_equiv b a.
-Proof. intros H K. symmetry. apply H. Qed.
-
-Lemma fixed_filter_eq K F1 F2 :
-  Forall2 key_equiv F1 F2 -> map (filter (has_key K)) F1 = map (filter (has_key K)) F2.
-Proof. induction 1 as [|a b F1 F2 Hab _ IH]; simpl; [reflexivity|]. now rewrite (Hab K), IH. Qed.
-
-Lemma nth_forall2 {A} (R : list A -> list A -> Prop) (l1 l2 : list (list A)) :
-  R [] [] -> Forall2 R l1 l2 -> forall k, R (nth k l1 []) (nth k l2 []).
-Proof. intros R0. induction 1; intros [|k]; simpl; auto. Qed.
-
-Lemma phase_in_all P enum F t ph r :
-  Permutation enum (p_files P) -> Forall2 key_equiv F (p_sets P) ->
-  (forall k x, In x (nth k t []) -> In x (flat_map file_reqs (p_files P))) ->
-  In r (phase_reqs enum F t ph) -> In r (all_reqs P).
-Proof.
-  intros HE HF HT Hr. unfold all_reqs. destruct ph as [k|k|k]; simpl in Hr.
-  - apply in_or_app. left. apply in_flat_map in Hr as (f & Hf & Hr).
-    apply in_flat_map. exists f. split; [now apply (Permutation_in _ HE)|].
-    unfold file_reqs. eapply nth_in_concat. exact Hr.
-  - apply in_or_app. left. eapply HT. exact Hr.
-  - apply in_or_app. right. apply (nth_in_concat (p_sets P) k).
-    refine (key_equiv_members _ _ r _ Hr).
-    apply (nth_forall2 key_equiv F (p_sets P)); [intros K; reflexivity|assumption].
-Qed.
-
-Lemma seen_before_in_files pl enum k : forall acc r,
-  (forall x, In x acc -> exists f j, In f enum /\ In x (seg j f)) ->
-  In r (seen_before pl enum k acc) -> exists f j, In f enum /\ In r (seg j f).
-Proof.
-  induction pl as [|[j|j|j] pl IH]; intros acc r HA Hr; simpl in Hr; auto.
-  - apply (IH (acc ++ flat_map (seg j) enum)); [|assumption].
-    intros x Hx. apply in_app_or in Hx as [Hx|Hx]; [auto|].
-    apply in_flat_map in Hx as (f & Hf & Hx). eauto.
-  - destruct (Nat.eqb j k); eauto.
-  - eauto.
-Qed.
-
-(* MAIN LEMMA: for any sequence of phases and any enumeration, two runs whose fixed phases agree key
-   by key and whose id-set phases ask (in any order) for selected entities give every entity the
-   same identifier *)
-Lemma run_deterministic_of pl P enum F1 F2 t1 t2 :
-  consistentb P = true -> Permutation enum (p_files P) ->
-  Forall2 key_equiv F1 (p_sets P) -> Forall2 key_equiv F2 (p_sets P) ->
-  Forall2 (@Permutation req) t1 (idsel_of pl enum (p_idsel P)) ->
-  Forall2 (@Permutation req) t2 (idsel_of pl enum (p_idsel P)) ->
-  forall id, ident_in (fst (run init (registration_of pl enum F1 t1))) id
-           = ident_in (fst (run init (registration_of pl enum F2 t2))) id.
-Proof.
-  intros HCb HE HF1 HF2 HT1 HT2 id.
-  pose proof (consistentb_sound P HCb) as HC.
-  set (A := registration_of pl enum F1 t1). set (B := registration_of pl enum F2 t2).
-  assert (TIN : forall t, Forall2 (@Permutation req) t (idsel_of pl enum (p_idsel P)) ->
-                forall k x, In x (nth k t []) -> In x (flat_map file_reqs (p_files P))).
-  { intros t Ht k x Hx. pose proof (idsel_members pl enum (p_idsel P) t Ht k x Hx) as Hs.
-    destruct (seen_before_in_files pl enum k [] x) as (f & j & Hf & Hxj); [intros y []|assumption|].
-    apply in_flat_map. exists f. split; [now apply (Permutation_in _ HE)|].
-    unfold file_reqs. eapply nth_in_concat. exact Hxj. }
-  assert (InA : forall r, In r A -> In r (all_reqs P)).
-  { intros r Hr. unfold A, registration_of in Hr. apply in_flat_map in Hr as (ph & _ & Hr).
-    exact (phase_in_all P enum F1 t1 ph r HE HF1 (TIN t1 HT1) Hr). }
-  assert (InB : forall r, In r B -> In r (all_reqs P)).
-  { intros r Hr. unfold B, registration_of in Hr. apply in_flat_map in Hr as (ph & _ & Hr).
-    exact (phase_in_all P enum F2 t2 ph r HE HF2 (TIN t2 HT2) Hr). }
-  assert (HF12 : Forall2 key_equiv F1 F2).
-  { clear - HF1 HF2. revert F2 HF2. induction HF1 as [|a b F1 S Hab _ IH]; intros F2 HF2;
-      inversion HF2; subst; constructor; [|now apply IH].
-    intros K. rewrite (Hab K). symmetry. auto. }
-  assert (HT12 : Forall2 (@Permutation req) t1 t2).
-  { eapply Forall2_perm_trans; [exact HT1|now apply Forall2_perm_sym]. }
-  assert (AB : forall r, In r A <-> In r B).
-  { intros r. unfold A, B, registration_of. rewrite !in_flat_map.
-    split; intros (ph & Hph & Hr); exists ph; (split; [assumption|]); destruct ph as [k|k|k]; simpl in *; auto.
-    - apply (Permutation_in _ (nth_perm _ _ HT12 k) Hr).
-    - refine (key_equiv_members _ _ r _ Hr).
-      apply (nth_forall2 key_equiv F1 F2); [intros K; reflexivity|assumption].
-    - apply (Permutation_in _ (Permutation_sym (nth_perm _ _ HT12 k)) Hr).
-    - refine (key_equiv_members _ _ r _ Hr). apply key_equiv_sym.
-      apply (nth_forall2 key_equiv F1 F2); [intros K; reflexivity|assumption]. }
-  assert (CA : consistentP A) by (apply (consistentP_incl (all_reqs P)); auto).
-  assert (CB : consistentP B) by (apply (consistentP_incl (all_reqs P)); auto).
-  destruct (in_dec Nat.eq_dec id (map r_id A)) as [Hin|Hout].
-  2:{ rewrite (absent_none A id Hout). symmetry. apply absent_none. intros Hin. apply Hout.
-      apply in_map_iff in Hin as (r & <- & Hr). apply in_map. now apply AB. }
-  apply in_map_iff in Hin as (r & <- & HrA). assert (HrB : In r B) by now apply AB.
-  rewrite (ident_by_key A r CA HrA), (ident_by_key B r CB HrB).
-  set (K := name_key r). unfold A, B. rewrite !registration_filter.
-  rewrite (fixed_filter_eq K F1 F2 HF12). f_equal.
-  apply (idset_irrelevant_of pl (map (filter_file K) enum) _ _ _ [] init).
-  - intros x [].
-  - intros k x Hx. rewrite nth_map_filter in Hx. apply filter_In in Hx as [Hx Kx].
-    change (@nil req) with (filter (has_key K) []). rewrite seen_before_filter.
-    apply filter_In. split; [|assumption]. exact (idsel_members pl enum (p_idsel P) t1 HT1 k x Hx).
-  - intros k x Hx. rewrite nth_map_filter in Hx. apply filter_In in Hx as [Hx Kx].
-    change (@nil req) with (filter (has_key K) []). rewrite seen_before_filter.
-    apply filter_In. split; [|assumption]. exact (idsel_members pl enum (p_idsel P) t2 HT2 k x Hx).
-Qed.
-
-Lemma sorted_enum_perm P pi : is_perm pi (length (p_files P)) -> Permutation (sorted_enum P pi) (p_files P).
-Proof.
-  intros H. unfold sorted_enum. eapply perm_trans; [apply Permutation_sym, isort_perm|now apply enumerate_perm].
+  intros P pi s1 s2 S1 S2. unfold idents, idents_enum. apply map_ext. intros id. f_equal.
+  unfold final_state, registration. f_equal.
+  apply (idset_irrelevant_of pipeline (sorted_enum P pi) (p_sets P) _ _ [] init).
+  - intros r [].
+  - apply (idsel_members pipeline (sorted_enum P pi) (p_sets P) (p_idsel P)). now apply enum_sets_perm.
+  - apply (idsel_members pipeline (sorted_enum P pi) (p_sets P) (p_idsel P)). now apply enum_sets_perm.
 Qed.
 
 (* by-file phases: the order in which the set of source files is iterated does not matter *)
@@ -617,30 +473,17 @@ Lemma sorted_enum_canonical P pi1 pi2 :
   sorted_enum P pi1 = sorted_enum P pi2.
 Proof. intros. now apply sorted_enumeration_canonical. Qed.
 
-(* set-ordered phases and the free order inside the fixed phases *)
-Theorem set_order_irrelevant : forall P pi sigma1 sigma2 F1 F2,
-  consistentb P = true -> is_perm pi (length (p_files P)) ->
-  sigma_ok P pi sigma1 -> sigma_ok P pi sigma2 -> fixed_ok P F1 -> fixed_ok P F2 ->
-  idents P pi sigma1 F1 = idents P pi sigma2 F2.
-Proof.
-  intros P pi s1 s2 F1 F2 HC Hp S1 S2 HF1 HF2. unfold idents, idents_enum. apply map_ext. intros id. f_equal.
-  unfold final_state, registration.
-  apply (run_deterministic_of pipeline P); auto using sorted_enum_perm.
-  - apply enum_sets_perm. exact S1.
-  - apply enum_sets_perm. exact S2.
-Qed.
-
 (* MAIN THEOREM: the full statement *)
-Theorem deterministic : forall P pi1 pi2 sigma1 sigma2 F1 F2,
-  consistentb P = true -> NoDup (map f_path (p_files P)) ->
+Theorem deterministic : forall P pi1 pi2 sigma1 sigma2,
+  NoDup (map f_path (p_files P)) ->
   is_perm pi1 (length (p_files P)) -> is_perm pi2 (length (p_files P)) ->
-  sigma_ok P pi1 sigma1 -> sigma_ok P pi2 sigma2 -> fixed_ok P F1 -> fixed_ok P F2 ->
-  idents P pi1 sigma1 F1 = idents P pi2 sigma2 F2.
+  sigma_ok P pi1 sigma1 -> sigma_ok P pi2 sigma2 ->
+  idents P pi1 sigma1 = idents P pi2 sigma2.
 Proof.
-  intros P pi1 pi2 s1 s2 F1 F2 HC ND H1 H2 S1 S2 HF1 HF2.
+  intros P pi1 pi2 s1 s2 ND H1 H2 S1 S2.
   assert (E : sorted_enum P pi1 = sorted_enum P pi2) by now apply sorted_enum_canonical.
   assert (S2' : sigma_ok P pi1 s2) by (unfold sigma_ok, idsel in *; now rewrite E).
-  rewrite (set_order_irrelevant P pi1 s1 s2 F1 F2 HC H1 S1 S2' HF1 HF2).
+  rewrite (idset_order_irrelevant P pi1 s1 s2 S1 S2').
   unfold idents, idsel. now rewrite E.
 Qed.
 
@@ -707,8 +550,8 @@ Proof.
   rewrite flat_map_map. reflexivity.
 Qed.
 
-Lemma seen_before_relocate root pl enum k : forall acc,
-  seen_before pl (map (relocate_file root) enum) k acc = seen_before pl enum k acc.
+Lemma seen_before_relocate root pl enum fixed k : forall acc,
+  seen_before pl (map (relocate_file root) enum) fixed k acc = seen_before pl enum fixed k acc.
 Proof.
   induction pl as [|[j|j|j] pl IH]; intros acc; simpl; auto.
   - rewrite flat_map_map. apply IH.
@@ -726,12 +569,14 @@ Proof.
 Qed.
 
 (* moving the whole project (all source files below one root) changes nothing *)
-Theorem location_irrelevant : forall root P pi sigma F,
-  idents (relocate root P) pi sigma F = idents P pi sigma F.
+Theorem location_irrelevant : forall root P pi sigma,
+  idents (relocate root P) pi sigma = idents P pi sigma.
 Proof.
-  intros root P pi sigma F. unfold idents, idsel. rewrite sorted_enum_relocate.
-  assert (E : idsel_of pipeline (map (relocate_file root) (sorted_enum P pi)) (p_idsel (relocate root P))
-              = idsel_of pipeline (sorted_enum P pi) (p_idsel P)).
+  intros root P pi sigma. unfold idents, idsel. rewrite sorted_enum_relocate.
+  change (p_sets (relocate root P)) with (p_sets P).
+  assert (E : idsel_of pipeline (map (relocate_file root) (sorted_enum P pi)) (p_sets P)
+                       (p_idsel (relocate root P))
+              = idsel_of pipeline (sorted_enum P pi) (p_sets P) (p_idsel P)).
   { unfold idsel_of. change (p_idsel (relocate root P)) with (p_idsel P).
     apply map_ext. intros k. now rewrite seen_before_relocate. }
   rewrite E. unfold idents_enum, ent_ids. rewrite all_reqs_relocate.
@@ -770,8 +615,8 @@ Proof. split; vm_compute; reflexivity. Qed.
 
 (* ... now a.f90 always comes first *)
 Lemma clash_project_sorted :
-  idents clash_project [0; 1] [] [] = idents clash_project [1; 0] [] [] /\
-  idents clash_project [1; 0] [] [] =
+  idents clash_project [0; 1] [] = idents clash_project [1; 0] [] /\
+  idents clash_project [1; 0] [] =
     [(1, Some (s "a.f90")); (2, Some (s "ma")); (3, Some (s "x"));
      (4, Some (s "b.f90")); (5, Some (s "mb")); (6, Some (s "x~2"))].
 Proof. split; vm_compute; reflexivity. Qed.
@@ -803,41 +648,54 @@ Proof.
   split; vm_compute; reflexivity.
 Qed.
 
-(* After it: the loop over project.modules (phase 45) asks first, in file order; the toposort (id-set
-   phase 0, entities 1 and 2) and everything later find the identifiers assigned.  Also a variable x
-   in each file, and a type requested in the rank-ordered loop (fixed phase 1). *)
+(* After the repairs: the loop over project.modules (phase 45) asks first, in file order; the toposort
+   (id-set phase 0, entities 1 and 2) and everything later find the identifiers assigned.  Also: a
+   variable x in each file; two types named t (one of them the renamed parent of child) whose
+   identifiers container.correlate requests in list order (fixed phase 1) before its toposort of
+   types (id-set phase 2); two inherited copies of a generic binding show, collected by graph_all
+   in the order of its loop (fixed phase 4) before it sorts the set of them (id-set phase 1). *)
 Definition twins_project : project :=
   {| p_files :=
        [ {| f_path := [s "src"; s "a.f90"];
             f_segs := segs_at2 7 [mkr 1 (s "module") (s "m"); mkr 3 (s "None") (s "x")]
                                45 [mkr 1 (s "module") (s "m")] |};
          {| f_path := [s "src"; s "b.f90"];
-            f_segs := segs_at2 7 [mkr 2 (s "module") (s "m"); mkr 4 (s "None") (s "x");
-                                  mkr 5 (s "type") (s "t")]
+            f_segs := segs_at2 7 [mkr 2 (s "module") (s "m"); mkr 4 (s "None") (s "x")]
                                45 [mkr 2 (s "module") (s "m")] |} ];
-     p_sets := [[]; [mkr 5 (s "type") (s "t")]];
-     p_idsel := [[1; 2]] |}.
+     p_sets := [[]; [mkr 5 (s "type") (s "t"); mkr 6 (s "type") (s "t"); mkr 7 (s "type") (s "child")];
+                []; []; [mkr 8 (s "None") (s "show"); mkr 9 (s "None") (s "show")]];
+     p_idsel := [[1; 2]; [8; 9; 5]; [5; 6; 7]] |}.
 
 Example twins_project_ok :
   NoDup (map f_path (p_files twins_project)) /\
   is_perm [1; 0] (length (p_files twins_project)) /\
-  idsel twins_project [1; 0] = [[mkr 1 (s "module") (s "m"); mkr 2 (s "module") (s "m")]] /\
-  sigma_ok twins_project [1; 0] [[1; 0]] /\ sigma_ok twins_project [0; 1] [[0; 1]] /\
-  fixed_ok twins_project (p_sets twins_project) /\ consistentb twins_project = true /\
-  idents twins_project [1; 0] [[1; 0]] (p_sets twins_project)
-    = idents twins_project [0; 1] [[0; 1]] (p_sets twins_project) /\
-  idents twins_project [1; 0] [[1; 0]] (p_sets twins_project) =
-    [(3, Some (s "x")); (1, Some (s "m")); (4, Some (s "x~2")); (2, Some (s "m~2")); (5, Some (s "t"))].
+  idsel twins_project [1; 0] =
+    [[mkr 1 (s "module") (s "m"); mkr 2 (s "module") (s "m")];
+     [mkr 5 (s "type") (s "t"); mkr 8 (s "None") (s "show"); mkr 9 (s "None") (s "show")];
+     [mkr 5 (s "type") (s "t"); mkr 6 (s "type") (s "t"); mkr 7 (s "type") (s "child")]] /\
+  sigma_ok twins_project [1; 0] [[1; 0]; [2; 0; 1]; [1; 2; 0]] /\
+  sigma_ok twins_project [0; 1] [[0; 1]; [0; 1; 2]; [0; 1; 2]] /\
+  idents twins_project [1; 0] [[1; 0]; [2; 0; 1]; [1; 2; 0]]
+    = idents twins_project [0; 1] [[0; 1]; [0; 1; 2]; [0; 1; 2]] /\
+  idents twins_project [1; 0] [[1; 0]; [2; 0; 1]; [1; 2; 0]] =
+    [(3, Some (s "x")); (1, Some (s "m")); (4, Some (s "x~2")); (2, Some (s "m~2"));
+     (5, Some (s "t")); (6, Some (s "t~2")); (7, Some (s "child"));
+     (8, Some (s "show")); (9, Some (s "show~2"))].
 Proof.
-  assert (E1 : idsel twins_project [1; 0] = [[mkr 1 (s "module") (s "m"); mkr 2 (s "module") (s "m")]])
+  assert (E1 : idsel twins_project [1; 0] =
+    [[mkr 1 (s "module") (s "m"); mkr 2 (s "module") (s "m")];
+     [mkr 5 (s "type") (s "t"); mkr 8 (s "None") (s "show"); mkr 9 (s "None") (s "show")];
+     [mkr 5 (s "type") (s "t"); mkr 6 (s "type") (s "t"); mkr 7 (s "type") (s "child")]])
     by (vm_compute; reflexivity).
-  assert (E0 : idsel twins_project [0; 1] = [[mkr 1 (s "module") (s "m"); mkr 2 (s "module") (s "m")]])
-    by (vm_compute; reflexivity).
+  assert (E0 : idsel twins_project [0; 1] = idsel twins_project [1; 0]) by (vm_compute; reflexivity).
+  assert (P201 : Permutation [2; 0; 1] [0; 1; 2]).
+  { apply (perm_trans (l' := [0; 2; 1])); [apply perm_swap|apply perm_skip, perm_swap]. }
+  assert (P120 : Permutation [1; 2; 0] [0; 1; 2]).
+  { apply (perm_trans (l' := [1; 0; 2])); [apply perm_skip, perm_swap|apply perm_swap]. }
   split; [simpl; repeat constructor; simpl; intuition discriminate|].
   split; [apply perm_swap|]. split; [exact E1|].
-  split; [unfold sigma_ok; rewrite E1; repeat constructor; apply perm_swap|].
-  split; [unfold sigma_ok; rewrite E0; repeat constructor; apply Permutation_refl|].
-  split; [repeat constructor; intros K; reflexivity|]. split; [vm_compute; reflexivity|].
+  split; [unfold sigma_ok; rewrite E1; repeat constructor; (apply perm_swap || assumption)|].
+  split; [unfold sigma_ok; rewrite E0, E1; repeat constructor; apply Permutation_refl|].
   split; vm_compute; reflexivity.
 Qed.
 
